@@ -389,6 +389,23 @@ fn grammar_case(g: G) -> BoxedStrategy<DocCase> {
         .boxed()
 }
 
+/// Regular tables (colspans that tile the grid, empty and blank cells, nested tables) rendered in
+/// raw mode or without borders: there the whole document keeps document order.
+fn raw_table_case() -> BoxedStrategy<DocCase> {
+    (super::regtable::rtable(1, 5, 5), 1usize..=120, deco_std(), prop::bool::weighted(0.7), prop::bool::weighted(0.2))
+        .prop_map(|(t, width, deco, raw, overflow)| {
+            let mut cfg = CfgSpec::of(deco);
+            if raw {
+                cfg.raw = true;
+            } else {
+                cfg.no_borders = true;
+            }
+            cfg.overflow = overflow;
+            DocCase { doc: t.doc(), muts: vec![], width, cfg }
+        })
+        .boxed()
+}
+
 fn mutated_case(g: G) -> BoxedStrategy<DocCase> {
     (gen::doc(&g), gen::mutations(), 1usize..=200, cfg_bounded())
         .prop_map(|(doc, muts, width, mut cfg)| {
@@ -413,6 +430,7 @@ pub fn property() -> Property {
         subs: vec![
             EnumSub::new("explicit", false, |_| explicit_regressions(), check_explicit).boxed(),
             PropSub::new("grammar", 48_000, 480_000, move || grammar_case(g.clone()), check_grammar).with_validity(|c| c.doc.valid()).boxed(),
+            PropSub::new("raw_tables", 16_000, 160_000, raw_table_case, check_grammar).with_validity(|c| c.doc.valid()).boxed(),
             PropSub::new("mutated", 24_000, 240_000, move || mutated_case(g2.clone()), check_mutated).with_validity(|c| c.doc.valid()).boxed(),
             FuzzSub { name: "fuzz_render", target: "fuzz_render", props: &["C03"], seconds: 120 }.boxed(),
             FuzzSub { name: "fuzz_struct", target: "fuzz_struct", props: &["C03"], seconds: 120 }.boxed(),
